@@ -127,6 +127,7 @@ def run(ck):
         "partition_meta, replicas/isr and the partition error code are not modelled (nothing in the property reads them); send_fetch_request is not driven (same _send_broker_aware_request/_handle_responses path as the four APIs that are)",
         "C08_recovery_partial is the bounded-progress form: at most one failed attempt per stale topic after the last fault, provided the metadata request is answered truthfully by some broker or bootstrap host; the Producer/Consumer retry loops are not part of this model (the failover monitor retries the client call itself)",
         "the network side (request parser / response encoder in harness/props/client_lib.py) was written from the Kafka protocol guide, not from afkak's codec",
+        "close() called while a lookup of the running operation is pending: client.py:383-389 fail the pending request synchronously, the operation's continuation runs inside close() and reads the cache BEFORE reset_all_metadata() (391); the model does the same (ClientMeta.close_early during the operation, close_finish after it)",
         "extraction: ExtrOcamlBasic only; Z stays a Coq datatype; sample of the case lines re-evaluated in Coq by vm_compute",
     ]
     ck.cov["trusted_base"] += ["correspondence harness harness/props/C08.py + client_gen.py + client_lib.py + harness/simnet.py + harness/vlib.py",
